@@ -2,6 +2,7 @@ import FparserModel.Proofs.BlockStream
 import FparserModel.Proofs.BlockClosed
 import FparserModel.Proofs.BlockOutcome
 import FparserModel.Proofs.BlockFuel
+import FparserModel.Proofs.BlockForest
 
 /-!
 # M-D — property theorems (every class table, every oracle, every fuel, every state)
@@ -120,6 +121,27 @@ theorem program_failure_rolls_back (env : Env) (fuel : Nat) (c unit main0 : Cls)
     · simp only [List.mem_filter] at this
       exact List.mem_of_elem_eq_true (by simpa using this.2)
 
+/-- C09 / C16, second half of `scope_balanced`: a class call that ends in "no match" (`None` or
+`NoMatchError`) leaves the symbol tables EXACTLY as they were — the top-level tables and the
+whole chain of open tables with all their children — unless a boundary event was logged in
+the run (`B` counts them): a leak, `abandon` (a completed block object was handed back to the
+reader: its tables stay — F-C16-1, `stale_table_witness`), `nameClash` (a table of that name
+already existed next to the new one: `remove` then deletes the wrong one / the top-level
+table is re-used) or a drop.  Also for a match that is a single statement. -/
+theorem forest_unchanged_on_failure (env : Env) (fuel : Nat) (c : Cls) (st st' : St) (o : Outcome)
+    (h : run env fuel c st = (o, st')) (hb : B st' = B st)
+    (ho : o = .none ∨ o = .raise .noMatch ∨ ∃ cl i info, o = .tree (.leaf cl i info)) :
+    st'.sym.tops = st.sym.tops ∧ st'.sym.stack = st.sym.stack := by
+  unfold run fresh at h
+  simp only [Prod.mk.injEq] at h
+  have := (eval_F env fuel).spec c [] st _ _ _ rfl
+  rw [h.1, h.2] at this
+  have h2 := this hb
+  rcases ho with rfl | rfl | ⟨cl, i, info, rfl⟩
+  · exact h2
+  · exact h2
+  · exact h2 trivial
+
 /-! ## d. an unmatched statement is never read past -/
 
 /-- If no class matches item `g` (and it is not a comment), then whatever is called and
@@ -174,15 +196,12 @@ theorem block_closed (env : Env) (fuel : Nat) (c : Cls) (st st' : St) (t : Tree)
 
 /-- what `EndOK` says about names when `match_names` is on: an end name needs an equal
 (lower-cased) start name, and with `strict_match_names` a named start needs a named end -/
-theorem endOK_names {tbl : Table} {cfg : Cfg} {st en : Tree} (h : EndOK tbl cfg (some st) en)
-    (hm : cfg.matchNames = true) :
-    (truthy (infoOf tbl en).endName = true →
-        (infoOf tbl st).startName = (infoOf tbl en).endName) ∧
-    (cfg.strictNames = true → truthy (infoOf tbl st).startName = true →
-        truthy (infoOf tbl en).endName = true) := by
-  have hc := h.2.2 hm
+theorem endNameCheck_none {cfg : Cfg} {si inf : NodeInfo} (hm : cfg.matchNames = true)
+    (hc : endNameCheck cfg (some si) inf = none) :
+    (truthy inf.endName = true → si.startName = inf.endName) ∧
+    (cfg.strictNames = true → truthy si.startName = true → truthy inf.endName = true) := by
   unfold endNameCheck at hc
-  simp only [hm, if_true, Option.map_some] at hc
+  simp only [hm, if_true] at hc
   split at hc
   · cases hc
   · split at hc
@@ -198,7 +217,7 @@ theorem endOK_names {tbl : Table} {cfg : Cfg} {st en : Tree} (h : EndOK tbl cfg 
           · rename_i h3
             constructor
             · intro he
-              cases hs : truthy (infoOf tbl st).startName with
+              cases hs : truthy si.startName with
               | false => simp [he, hs] at h1
               | true =>
                 have := h3
@@ -206,9 +225,37 @@ theorem endOK_names {tbl : Table} {cfg : Cfg} {st en : Tree} (h : EndOK tbl cfg 
                   Bool.and_eq_true, decide_eq_true_eq] at this
                 simpa using this
             · intro hst hs
-              cases he : truthy (infoOf tbl en).endName with
+              cases he : truthy inf.endName with
               | true => rfl
               | false => simp [hst, hs, he] at h2
+
+theorem endOK_names {tbl : Table} {cfg : Cfg} {st en : Tree} (h : EndOK tbl cfg (some st) en)
+    (hm : cfg.matchNames = true) :
+    (truthy (infoOf tbl en).endName = true →
+        (infoOf tbl st).startName = (infoOf tbl en).endName) ∧
+    (cfg.strictNames = true → truthy (infoOf tbl st).startName = true →
+        truthy (infoOf tbl en).endName = true) := by
+  have hc := h.2.2.1 hm
+  simp only [Option.map_some] at hc
+  exact endNameCheck_none hm hc
+
+/-- C08 for the labelled DO (repaired variant `labelDoEndNames`): in a `match_labels` block
+whose construct does not ask for `match_names`, an end statement that can carry a name (an
+`END DO`) has a name equal (lower-cased) to the start name or none, and a named DO statement
+needs the name on its `END DO` — e.g. `outer: do 24 … / 24 end do wrong` is not accepted. -/
+theorem endOK_label_do_names {tbl : Table} {cfg : Cfg} {st en : Tree}
+    (h : EndOK tbl cfg (some st) en) (hq : tbl.quirks.labelDoEndNames = true)
+    (hl : cfg.matchLabels = true) (hm : cfg.matchNames = false)
+    (he : (infoOf tbl en).hasEndName = true) (hs : (infoOf tbl st).hasStartName = true) :
+    (truthy (infoOf tbl en).endName = true →
+        (infoOf tbl st).startName = (infoOf tbl en).endName) ∧
+    (truthy (infoOf tbl st).startName = true → truthy (infoOf tbl en).endName = true) := by
+  have hd : endDoNames tbl.quirks cfg (Option.map (infoOf tbl) (some st)) (infoOf tbl en) = true := by
+    simp [endDoNames, hq, hl, hm, he, hs]
+  have hc := h.2.2.2 hd
+  simp only [Option.map_some] at hc
+  have := endNameCheck_none (cfg := { cfg with matchNames := true, strictNames := true }) rfl hc
+  exact ⟨this.1, this.2 rfl⟩
 
 /-- a successful `Program` leaves the stream empty — unconditionally for the repaired
 `Program.match` (`programContinues`), and for the pinned one unless it fell back to
@@ -568,7 +615,8 @@ of open scopes is unchanged, but the table of the inner block stays in the fores
 theorem stale_table_witness :
     outKind resStale.1 = 2 ∧ resStale.2.stream.all.map (·.id) = [0, 1, 2] ∧
     resStale.2.sym.chain = [] ∧ resStale.2.sym.forest.length = 1 ∧
-    leaks resStale.2.log = 0 ∧ D resStale.2 = 0 := by
+    leaks resStale.2.log = 0 ∧ D resStale.2 = 0 ∧ B resStale.2 = 1 ∧
+    resStale.2.log.contains (.ghost .abandon) = true := by
   decide
 
 /-! ### F-C20-2: the cost of nested non-block DO loops with distinct labels doubles per level -/
@@ -647,6 +695,15 @@ example : outKind (res {} (fun _ _ => ans .none) 5 1).1 = 1 ∧
     D (res {} (fun _ _ => ans .none) 1 1).2 = 0 ∧
     (res {} (fun _ _ => ans .none) 1 1).2.stream.all.map (·.id) = [0] ∧
     (res {} (fun _ _ => ans .none) 1 1).2.stream.pulled = 1 := by
+  decide
+
+open W in
+/-- a non-trivial instance of `forest_unchanged_on_failure`: `subroutine a` without its END —
+the scope `a` was entered, left and removed again (the log shows it), no boundary event -/
+example : outKind (res {} orcDrop 2 1).1 = 2 ∧ B (res {} orcDrop 2 1).2 = 0 ∧
+    (res {} orcDrop 2 1).2.log.contains (.enter 5) = true ∧
+    (res {} orcDrop 2 1).2.log.contains (.remove 5) = true ∧
+    (res {} orcDrop 2 1).2.sym.forest.length = 0 := by
   decide
 
 open W in
